@@ -220,6 +220,19 @@ def owner_check_spec(repo, skel_out):
     if 'is_admin = ctx.is_admin' not in [_src(s) for s in fn.body] or \
             'ctx = context.ctx()' not in [_src(s) for s in fn.body]:
         raise Refuse('check_db_obj_access: is_admin is not ctx().is_admin')
+    # the owner-only variant (optional): exactly the first guard
+    res['ownerOnlyPresent'] = False
+    for n in tree.body:
+        if isinstance(n, ast.FunctionDef) and n.name == 'check_db_obj_owner':
+            body = _strip_doc(n).body
+            if not (len(body) == 1 and isinstance(body[0], ast.If) and not body[0].orelse
+                    and isinstance(body[0].test, ast.BoolOp) and isinstance(body[0].test.op, ast.And)
+                    and sorted(_src(t) for t in body[0].test.values) ==
+                    ['db_obj.project_id != security.get_project_id()', 'not context.ctx().is_admin']
+                    and len(body[0].body) == 1 and isinstance(body[0].body[0], ast.Raise)
+                    and _src(body[0].body[0].exc.func) == 'exc.NotAllowedException'):
+                raise Refuse('check_db_obj_owner is not the reviewed owner-only guard')
+            res['ownerOnlyPresent'] = True
     return res
 
 
@@ -766,11 +779,12 @@ class Interp(object):
                 raise Unknown('%s on a non-model' % fsrc)
             return ('query', args[0][1], 'insecure' if fsrc == 'b.model_query' else 'secure',
                     frozenset())
-        if fsrc == 'm_dbutils.check_db_obj_access':
+        if fsrc in ('m_dbutils.check_db_obj_access', 'm_dbutils.check_db_obj_owner'):
             v = self.expr(e.args[0], env)
             if v[0] != 'obj':
-                raise Unknown('check_db_obj_access on %s' % v[0])
-            self.effects.append({'e': 'check', 'model': v[1], 'path': self.path})
+                raise Unknown('%s on %s' % (fsrc, v[0]))
+            self.effects.append({'e': 'check', 'model': v[1], 'path': self.path,
+                                 'system': fsrc.endswith('access')})
             return OPAQUE
         if fsrc == 'db_filters.apply_filters':
             q = self.expr(e.args[0], env)
@@ -868,7 +882,8 @@ class Interp(object):
                 if name in ('delete', 'update', 'update_on_match'):
                     kind = {'delete': 'delete', 'update': 'update', 'update_on_match': 'cas'}[name]
                     sp = kws.get('specimen')
-                    by_loaded = bool(name == 'update_on_match' and sp and sp[0] == 'new' and sp[2])
+                    by_loaded = bool(name == 'update_on_match' and sp and sp[0] == 'new' and sp[2]) \
+                        or '@loaded' in recv[3]
                     if name == 'update_on_match' and not (sp and sp[0] in ('new', 'param')):
                         raise Unknown('update_on_match specimen %s' % (sp[0] if sp else None))
                     self.effects.append({'e': 'mutate', 'kind': kind, 'model': recv[1],
@@ -1045,7 +1060,7 @@ def classify(name, ret, effects, params, has_kwargs, secure_set):
     entry = {'name': name, 'model': '', 'kind': 'other', 'key': 'none', 'read': 'none',
              'mut': 'none', 'bulk': False, 'ownerCheck': False, 'notFound': not_found,
              'insecureParam': False, 'extra': [], 'status': 'ok', 'params': params,
-             'kwargs': has_kwargs}
+             'kwargs': has_kwargs, 'sysCheck': False}
     if not models:
         entry['kind'] = 'infra'
         return entry
@@ -1153,15 +1168,17 @@ def classify(name, ret, effects, params, has_kwargs, secure_set):
             for i, x in enumerate(effects[:first]):
                 if x['e'] == 'check' and x['model'] == prim and mp[:len(x['path'])] == x['path']:
                     entry['ownerCheck'] = True
+                    entry['sysCheck'] = entry['sysCheck'] or x['system']
         if entry['kind'] == 'createOrUpdate':
             # the update branch's check
             ups = [i for i, x in enumerate(effects) if x['e'] == 'mutate' and x['kind'] in ('update', 'cas')]
             entry['ownerCheck'] = False
             if ups:
                 mp = effects[ups[0]]['path']
-                entry['ownerCheck'] = any(
-                    x['e'] == 'check' and x['model'] == prim and mp[:len(x['path'])] == x['path']
-                    for x in effects[:ups[0]])
+                cks = [x for x in effects[:ups[0]]
+                       if x['e'] == 'check' and x['model'] == prim and mp[:len(x['path'])] == x['path']]
+                entry['ownerCheck'] = bool(cks)
+                entry['sysCheck'] = any(x['system'] for x in cks)
     return entry
 
 
@@ -1180,6 +1197,7 @@ def db_functions(api_tree, secure_set):
             e = {'name': n.name, 'model': '', 'kind': 'other', 'key': 'none', 'read': 'none',
                  'mut': 'none', 'bulk': False, 'ownerCheck': False, 'notFound': False,
                  'insecureParam': False, 'extra': [], 'status': 'unknown', 'reason': str(u),
+                 'sysCheck': False,
                  'params': [a.arg for a in n.args.args], 'kwargs': bool(n.args.kwarg)}
             # best effort model name for the report
             ms = sorted({_src(x)[7:] for x in ast.walk(n) if isinstance(x, ast.Attribute)
@@ -1276,6 +1294,8 @@ def build(repo):
     forcing = project_forcing_spec(repo, skel)
     all_models, secure, has_system = secure_models(repo)
     entries = db_functions(api_tree, set(secure))
+    if any(e['ownerCheck'] and not e['sysCheck'] for e in entries) and not own['ownerOnlyPresent']:
+        raise Refuse('check_db_obj_owner is called but not defined in %s' % DBUTILS)
     uses, insecure_sites, scanned = scan_uses(repo)
     names = {e['name'] for e in entries}
     # the facade mistral/db/v2/api.py must forward 1:1
@@ -1359,10 +1379,10 @@ def render(t):
     rows = []
     for e in t['entries']:
         rows.append('  { name := %s, model := %s, kind := %s, key := %s, read := %s, mutn := %s, '
-                    'bulk := %s, ownerCheck := %s, notFound := %s, reachable := %s, known := %s }'
+                    'bulk := %s, ownerCheck := %s, sysCheck := %s, notFound := %s, reachable := %s, known := %s }'
                     % (lstr(e['name']), lstr(e['model']), KIND[e['kind']], KEY[e['key']],
                        READ[e['read']], MUT[e['mut']], lbool(e['bulk']), lbool(e['ownerCheck']),
-                       lbool(e['notFound']), lbool(e['reachable']), lbool(e['status'] == 'ok')))
+                       lbool(e['sysCheck']), lbool(e['notFound']), lbool(e['reachable']), lbool(e['status'] == 'ok')))
     out.append(',\n'.join(rows))
     out.append(']')
     out.append('')
